@@ -286,53 +286,6 @@ func VH_udp_burst() {
 	vapi.Assert(len(seen) == n, "a datagram of the burst was lost although its connection was alive and reading")
 }
 
-// VH_udp_burst_short: the same burst against a handler that reads ONE datagram and
-// returns. Datagrams that were already queued on a connection when it ended are lost
-// (UDP); any other datagram must be served by a fresh connection: between two
-// datagrams that were read, at most a queue's capacity may be missing.
-func VH_udp_burst_short() {
-	n := vapi.Param("DGRAMS", 8)
-	pc := &scriptPC{shutdown: make(chan struct{})}
-	for i := 0; i < n; i++ {
-		pc.script = append(pc.script, dgram{0, []byte{byte(i + 1)}})
-	}
-	var seen []byte
-	qcap := -1
-	rl := layer4.RouteList{layer4.VerifNewRoute(nil, []layer4.NextHandler{oneShot{&seen, &qcap}})}
-	s := layer4.VerifNewServer(rl, 3*time.Second)
-	go func() { _ = layer4.VerifServePacket(s, pc) }()
-	vapi.Yield()
-	vapi.Advance(31 * time.Second)
-	close(pc.shutdown)
-	vapi.Yield()
-	vapi.Cover("served")
-	vapi.Assert(len(seen) >= 1 && seen[0] == 1 && qcap > 0, "the first datagram was not served")
-	last := byte(0)
-	for _, b := range seen {
-		vapi.Assert(b > last, "datagrams of one client were delivered out of arrival order or twice")
-		vapi.Assert(int(b-last)-1 <= qcap, "a datagram that was not queued on the connection that ended was lost instead of being served by a fresh connection")
-		last = b
-	}
-	if len(seen) > 1 {
-		vapi.Cover("a later datagram was served by a fresh connection")
-	}
-	vapi.Assert(n-int(last) <= qcap, "the tail of the burst was lost although no connection was alive to queue it")
-}
-
-type oneShot struct {
-	seen *[]byte
-	qcap *int
-}
-
-func (h oneShot) Handle(cx *layer4.Connection, _ layer4.Handler) error {
-	*h.qcap = layer4.VerifQueueCap(cx)
-	p := make([]byte, 8)
-	if k, err := cx.Read(p); err == nil && k == 1 {
-		*h.seen = append(*h.seen, p[0])
-	}
-	return nil
-}
-
 type burstHandler struct {
 	seen  *[]byte
 	conns *int
@@ -403,6 +356,5 @@ func init() {
 	vapi.Register("c09.VH_udp", VH_udp)
 	vapi.Register("c09.VH_udp_idle", VH_udp_idle)
 	vapi.Register("c09.VH_udp_burst", VH_udp_burst)
-	vapi.Register("c09.VH_udp_burst_short", VH_udp_burst_short)
 	vapi.Register("c09.VH_partial", VH_partial)
 }
